@@ -130,7 +130,8 @@ class ComplexType(BaseType):
         )
 
     def _to_hash_string(self) -> str:
-        return type(self).__name__ + "/" + ",".join(map(get_hash_string, self.types))
+        # Members are delimited: without brackets "A/B/x,y" is both A[B[x, y]] and A[B[x], y]
+        return type(self).__name__ + "/[" + ",".join(map(get_hash_string, self.types)) + "]"
 
 
 class DOptional(SingleType):
